@@ -386,6 +386,10 @@ def bias(V):
             self.d = [0] * n
 
         def __setitem__(self, i, v):
+            if isinstance(i, slice):
+                v = list(v)
+                if len(v) != len(self.d[i]):
+                    raise core.Unmodelled("bytearray slice assignment that changes the length")
             self.d[i] = v
 
     def _isinstance(o, t):
@@ -393,7 +397,7 @@ def bias(V):
             return True
         return isinstance(o, t)
 
-    with core.shims((wc, {"bytearray": _BA, "isinstance": _isinstance})):
+    with core.shims((wc, {"bytearray": _BA, "isinstance": _isinstance, "int": npint.sint_shim})):
         data = wc.encode_bias(b, scale, shift)
     bytes_ = data.d if hasattr(data, "d") else list(data)
     cl = [("record is 10 bytes", len(bytes_) == 10)]
@@ -625,6 +629,13 @@ def scale_quantisation(V, **params):
     return c09.qs(V, **params)
 
 
+def reduced_scale_quantisation(V, **params):
+    """the 16-bit multiplier of an int16 operator with 64-bit bias is the reference reduction of the Q31 multiplier (harness/c09.py rqs)"""
+    from harness import c09
+
+    return c09.rqs(V, **params)
+
+
 def idle_core(V, **params):
     """each channel exactly once: a core without a weight/scale stream of its own is programmed with length 0, not with another core's range
     (harness/c06.py pair, weights/biases groups on the two-core accelerator; also registered under C02)"""
@@ -633,7 +644,7 @@ def idle_core(V, **params):
     return c06.pair(V, **params)
 
 
-FUNCS = {"idle_core": idle_core, "scale_values": scale_values, "scale_quantisation": scale_quantisation, "buffering": buffering, "weight_ranges": weight_ranges, "codec_args": codec_args, "encode": encode, "cache": cache, "cache_key": cache_key, "flash_contents": flash_contents, "scale_cache_key": scale_cache_key, "bias": bias, "bias_rejects": bias_rejects}
+FUNCS = {"reduced_scale_quantisation": reduced_scale_quantisation, "idle_core": idle_core, "scale_values": scale_values, "scale_quantisation": scale_quantisation, "buffering": buffering, "weight_ranges": weight_ranges, "codec_args": codec_args, "encode": encode, "cache": cache, "cache_key": cache_key, "flash_contents": flash_contents, "scale_cache_key": scale_cache_key, "bias": bias, "bias_rejects": bias_rejects}
 
 
 def instances(tier, seed):
@@ -677,6 +688,8 @@ def instances(tier, seed):
             out.append(dict(key="scale_values/" + inst["key"], fn="scale_values", params=inst["params"]))
         if inst["fn"] == "qs":
             out.append(dict(key="scale_quantisation/" + inst["key"], fn="scale_quantisation", params=inst["params"], weight=100))
+        if inst["fn"] == "rqs":
+            out.append(dict(key="reduced_scale_quantisation/" + inst["key"], fn="reduced_scale_quantisation", params=inst["params"]))
     out.append(dict(key="bias/pack", fn="bias", params={}))
     for w in ("bias_hi", "bias_lo", "scale", "shift", "neg_scale"):
         out.append(dict(key="bias_rejects/%s" % w, fn="bias_rejects", params=dict(which=w)))
